@@ -35,7 +35,7 @@ struct XMinify : Engine {
         if (!cfg.opt.count("hang_s")) cfg.opt["hang_s"] = "8";   // a Minify call takes microseconds: 8 s without progress is a hang (re-checked alone by vcheck before it is reported)
         std::vector<std::string> st; long k = cfg.optl("bytes", cfg.thorough() ? 7 : 6);
         for (long i = 0; i <= k; i++) st.push_back("bytes" + std::to_string(i));
-        st.push_back("uniform"); st.push_back("single"); st.push_back("allgaps"); if (cfg.thorough()) st.push_back("pairs");
+        st.push_back("runs"); st.push_back("allbytes"); st.push_back("uniform"); st.push_back("single"); st.push_back("allgaps"); if (cfg.thorough()) st.push_back("pairs");
         return st;
     }
     void run_text(int kind, const std::string& text, const std::vector<std::string>* toks) { static Case c; c.kind = (uint32_t)kind; if (text.size() + 1 > sizeof c.data) return; c.set(text); (void)toks; pool_run(c); }
@@ -46,6 +46,15 @@ struct XMinify : Engine {
         if (stage.compare(0, 5, "bytes") == 0) {
             int k = atoi(stage.c_str() + 5); const int A = sizeof SIG; std::vector<int> od(k, 0); std::string s((size_t)k, 0);
             for (;;) { if (pool_take()) { for (int i = 0; i < k; i++) s[i] = (char)SIG[od[i]]; run_text(0, s, nullptr); } int i = k - 1; while (i >= 0 && ++od[i] == A) od[i--] = 0; if (i < 0) break; }
+            return;
+        }
+        if (stage == "runs") {   // long runs of one steering byte, alone, after a value, before a value, inside a string
+            for (size_t a = 0; a < sizeof SIG; a++) for (int len = 1; len <= 40; len++) for (int ctx = 0; ctx < 5; ctx++) { if (!pool_take()) continue; std::string r((size_t)len, (char)SIG[a]);
+                run_text(0, ctx == 0 ? r : ctx == 1 ? "[1]" + r : ctx == 2 ? r + "[1]" : ctx == 3 ? "\"" + r + "\"" : "[1," + r + "2]", nullptr); }
+            return;
+        }
+        if (stage == "allbytes") {   // every single byte and every pair of bytes (incl. truncated multi-byte sequences such as a partial BOM)
+            for (int a = 1; a < 256; a++) { if (!pool_take()) continue; run_text(0, std::string(1, (char)a), nullptr); for (int b = 1; b < 256; b++) { char t[3] = { (char)a, (char)b, 0 }; run_text(0, t, nullptr); } run_text(0, std::string(1, (char)a) + "1", nullptr); run_text(0, "1" + std::string(1, (char)a), nullptr); }
             return;
         }
         for (size_t ti = 0; ti < trees.size(); ti++) for (int sb = 0; sb < NSTRS; sb++) {
